@@ -206,10 +206,16 @@ def audit(prop_modules):
     os.makedirs(os.path.join(LEAN, ".lake", "audit"), exist_ok=True)
     tag = hashlib.sha1(body.encode()).hexdigest()[:10]
     apath = os.path.join(LEAN, ".lake", "audit", f"Audit_{tag}.lean")
+    # per-process file name: two concurrent checks of one property must not truncate each other's audit input
+    apath = os.path.join(LEAN, ".lake", "audit", f"Audit_{tag}_{os.getpid()}.lean")
     with open(apath, "w") as f:
         f.write(body)
     p = subprocess.run(["lake", "env", "lean", apath], cwd=LEAN, capture_output=True, text=True, timeout=1800)
     out = p.stdout + p.stderr
+    try:
+        os.remove(apath)
+    except OSError:
+        pass
     if p.returncode != 0:
         raise Infra(f"axiom audit failed:\n{out[-3000:]}")
     res, bad = [], []
